@@ -7,13 +7,13 @@ NOTES = ("Every check runs the real ohsl code on every element of an explicitly 
 
 add("C03", "model_checking",
     "explicit-state BFS over editing histories of the real Matrix<Rat> (state = full content, dedup) + exhaustive shape lattice 0..8 against a Vec<Vec<Rat>> model",
-    "All 729 product shape triples, all 81 shapes for every other operator/editor with every row/column/offset argument, all 6561 resizes, and every editing history up to depth 4 (quick) / 5-6 (thorough) from four initial matrices are executed on the real code and compared with a naive model through the derived PartialEq (raw buffer) and every getter. Exhaustive within those bounds; nothing beyond them.",
+    "All 729 product shape triples, all 81 shapes for every other operator/editor with every row/column/offset argument, all 6561 resizes, and every editing history up to depth 4 (quick) / 5-6 (thorough) from four initial matrices are executed on the real code and compared with a naive model through the derived PartialEq (raw buffer) and every getter; a second, clone-free exploration replays every history on ONE object (hidden state such as stale buffer tails survives), with read-only queries issued before each mutation. Exhaustive within those bounds; nothing beyond them.",
     "Trusted: the Vec<Vec<Rat>> model and the exact-rational type (i128, checked). One generic filling per shape is assumed to decide index arithmetic (operators are polynomial identities in the entries).",
     "DESIGN.md section 6 C03")
 
 add("C01", "exploration",
     "exhaustive input-lattice enumeration (bounded model checking of a sequential API) against exact rational arithmetic",
-    "Every n x n matrix over a small signed alphabet (n<=3 quick, n<=4 thorough) with every right-hand side over {0,+-1}, every permutation P in the P*L*U family up to n=6, the tiny-pivot lattice {0,1,-1,2,+-1e-20} and Complex<f64> lattices are solved by the real solve_basic and solve_lu; exact equality A*x=b over rationals, normwise backward error <= 1e-12 over floats (worst observed ~1e-16 is recorded), mutual agreement. Exhaustive within the alphabets/orders; silent about larger orders and general f64 bit patterns.",
+    "Every n x n matrix over a small signed alphabet (n<=3 quick, n<=4 thorough) with every right-hand side over {0,+-1}, every permutation P in the P*L*U family up to n=6, the tiny-pivot lattice {0,1,-1,2,+-1e-20}, uniformly scaled twins (2^-60 .. 1e18), Complex<f64> lattices, and every nonsingular 3x3 matrix over {0,+-1} reached through six construction/editing paths (delete_row, resize, set_col + transposes, grown from empty + row swaps) are solved by the real solve_basic and solve_lu; exact equality A*x=b over rationals, normwise backward error <= 1e-12 over floats (worst observed ~1e-16 is recorded), mutual agreement. Exhaustive within the alphabets/orders; silent about larger orders and general f64 bit patterns.",
     "Trusted: cofactor determinant deciding nonsingularity, the checked-i128 rational type, the fma-based residual. f64 lattices contain only well-conditioned systems (tiny perturbations of nonsingular integer matrices) so any backward-stable solver passes.",
     "DESIGN.md section 6 C01")
 add("C02", "exploration",
@@ -35,12 +35,12 @@ add("C05", "model_checking",
 
 add("C06", "model_checking",
     "explicit-state BFS over insert/overwrite/scale/transpose histories of the real Sparse<Rat> (state = public CSC arrays) + exhaustive pattern x triplet-order enumeration against a BTreeMap",
-    "Every sparsity pattern of every shape with r*c<=12 (quick) / r,c<=4 (thorough), built in every permutation of its triplet list (nnz<=5) or 8 fixed orders and through from_vecs, plus structured families up to 8x8: get for every (i,j), to_triplets, to_dense, col_index and the compressed-column invariants are compared with a map model. BFS explores every history up to depth 5 (quick) / 7 (thorough) from three empty shapes, deduplicating on the full public state, cross-checked against stateright's BFS.",
+    "Every sparsity pattern of every shape with r*c<=12 (quick) / r,c<=4 (thorough), built in every permutation of its triplet list (nnz<=5) or 8 fixed orders and through from_vecs, plus structured families up to 8x8: get for every (i,j), to_triplets, to_dense, col_index and the compressed-column invariants are compared with a map model. BFS explores every history up to depth 5 (quick) / 7 (thorough) from three empty shapes, deduplicating on the full public state, cross-checked against stateright's BFS. Sparse<f64> and Sparse<Complex<f64>> on exactly representable data of mixed magnitude (every pattern of five small shapes): views, transpose, scale by eight real/imaginary/general factors, overwrite, insert against exact Gaussian-rational arithmetic.",
     "Trusted: BTreeMap reference. Duplicate triplets are outside the claim.",
     "DESIGN.md section 6 C06")
 add("C07", "model_checking",
     "exhaustive pattern enumeration with every unit vector + explicit-state BFS over construction histories, dense product over exact rationals as oracle",
-    "Every sparsity pattern for shapes with r*c<=12 (quick) / <=20 (thorough) in two triplet orders and pattern families up to 10x10: multiply, transpose_multiply, transpose().multiply, the adjoint identity and scale against the dense definition for every unit vector and four generic vectors, exactly; the same oracles in every state of the insert/scale/transpose BFS (storage orders from_triplets alone never produces).",
+    "Every sparsity pattern for shapes with r*c<=12 (quick) / <=20 (thorough) in two triplet orders and pattern families up to 10x10: multiply, transpose_multiply, transpose().multiply, the adjoint identity and scale against the dense definition for every unit vector and four generic vectors, exactly; the same oracles in every state of the insert/scale/transpose BFS (storage orders from_triplets alone never produces). f64 and Complex<f64> products on exactly representable data for every pattern of five small shapes.",
     "Trusted: dense reference product over checked i128 rationals.",
     "DESIGN.md section 6 C07")
 
@@ -51,14 +51,14 @@ add("C08", "exploration",
     "DESIGN.md section 6 C08")
 add("C09", "exploration",
     "exhaustive enumeration over families x orders x triplet orders x right-hand sides x guesses x tolerances x solvers, independent dense LU as reference",
-    "Six well-posed families (SPD and strictly diagonally dominant, symmetric and nonsymmetric, mixed-sign diagonals) of order 1..60 in three triplet orders with right-hand sides A x*, 0 and 1e6 A x*, guesses 0 / exact / generic and three tolerances: each applicable solver must answer Ok within 6n+30 iterations and agree with an independent dense LU solution within 10 tol ||A^-1|| ||b||; exact guesses and zero/zero starts must be accepted with x finite. Plus every strictly dominant SPD 2x2/3x3 matrix over a 5-letter alphabet for CG.",
+    "Six well-posed families (SPD and strictly diagonally dominant, symmetric and nonsymmetric, mixed-sign diagonals) of order 1..60 through seven construction paths (three triplet orders, insert by insert, double transpose, overwrite + scale, explicitly stored zeros) with right-hand sides A x*, 0 and 1e6 A x*, guesses 0 / exact / generic and three tolerances: each applicable solver must answer Ok within 6n+30 iterations and agree with an independent dense LU solution within 10 tol ||A^-1|| ||b||; exact guesses and zero/zero starts must be accepted with x finite. Plus every strictly dominant SPD 2x2/3x3 matrix over a 5-letter alphabet for all five solvers.",
     "Trusted: independent dense LU and condition estimate. Known finding (listed by exact input in known_findings.txt, printed as KNOWN-FINDING): exact Lanczos breakdowns of BiCG/BiCGSTAB/QMR on some strictly dominant systems; the Lanczos-type solvers are therefore judged for convergence on the irreducible families only.",
     "DESIGN.md section 6 C09")
 
-add("C10", "exploration",
-    "exhaustive enumeration of root multisets and coefficient vectors over small alphabets, backward error in the property's own measure",
-    "Every multiset of up to 5 (quick) / 7 (thorough) roots from a 12-letter alphabet (zero, unit, conjugate, repeated, 1e3 and 1e-3 roots) with four leading coefficients, every integer and Gaussian-integer coefficient vector of degree <= 4/5 with non-zero lead, conjugate-closed multisets through the f64 entry point, and degree 8..12 products with x^k-1, each with and without refinement: exactly n finite values, each with |p(z)|/(max|a_k| max(1,|z|)^n) below 1e-9 (1e-2 unrefined with a root of modulus 1e3), one-to-one matching for simple separated roots, degree 0 rejected.",
-    "Trusted: independent complex Horner evaluation. Thresholds are >= 40x the worst value observed on the repaired tree; polynomials outside the alphabets / degree > 12 are not covered.",
+add("C10", "model_checking",
+    "explicit-state BFS over query/edit/query histories of one polynomial object (differential oracle against a fresh twin) + exhaustive enumeration of root multisets and coefficient vectors, backward error in the property's own measure",
+    "Every multiset of up to 5 (quick) / 7 (thorough) roots from a 12-letter alphabet (zero, unit, conjugate, repeated, 1e3 and 1e-3 roots) with four leading coefficients, every integer and Gaussian-integer coefficient vector of degree <= 4/5 with non-zero lead, conjugate-closed multisets through the f64 entry point, and degree 8..12 products with x^k-1, a wide-scale complex coefficient lattice (1, i, +-1e3, +-1e3 i, +-1e-3, +-1e-3 i) of degree 2-3(4), each with and without refinement: exactly n finite values, each with |p(z)|/(max|a_k| max(1,|z|)^n) below a per-path threshold (refined 1e-9, quadratic 1e-12, Cardano 1e-7, Laguerre 1e-9 / 1e-2 with a root of modulus 1e3), one-to-one matching for simple separated roots, degree 0 rejected. BFS: roots() queried, coefficients edited through IndexMut / coeffs() / trim, roots() queried again - bit-identical to a freshly built polynomial.",
+    "Trusted: independent complex Horner evaluation. Thresholds are >= 40x the worst value observed on the repaired tree (recorded in the evidence); polynomials outside the alphabets / degree > 12 are not covered.",
     "DESIGN.md section 6 C10")
 add("C11", "model_checking",
     "exhaustive pair enumeration over three element types + explicit-state BFS over ring-operation histories against a coefficient-list model",
@@ -84,7 +84,7 @@ add("C14", "exploration",
 
 add("C15", "model_checking",
     "exhaustive enumeration of short vectors / pairs / ranges + explicit-state BFS over editing histories to closure, Vec model as oracle",
-    "All vectors of length 0..4 over {0,1,-1,2,1/2}: every same-length pair (4e5) for +, -, dot and the assignment forms, every (start,end) range for partial sums/products, scalar forms, abs, norm_1, find, sort, constructors, conj/real; lengths up to 64 through a family; all integer-valued f64 vectors of length 0..6 for the 1-, 2-, p-, inf-norms with inequalities, homogeneity, triangle inequality; linspace/powspace for every n in 2..64. BFS over push/push_front/insert/pop/swap/resize/assign/clear/sort/index writes on a real Vector<Rat> (length <= 5) runs to closure: all 1365 reachable states, every reduction re-checked in each.",
+    "All vectors of length 0..4 over {0,1,-1,2,1/2}: every same-length pair (4e5) for +, -, dot and the assignment forms, every (start,end) range for partial sums/products, scalar forms, abs, norm_1, find, sort, constructors, conj/real; lengths up to 64 through a family; all integer-valued f64 vectors of length 0..6 for the 1-, 2-, p-, inf-norms with inequalities, homogeneity, triangle inequality; linspace/powspace for every n in 2..64, also with coinciding limits and limits 1..80 ulp apart (monotone, inside [a,b]); Vector<Complex<f64>> over nine Gaussian integers on both axes and in all quadrants (every ordered pair of length <= 2, lengths to 64): operators, scalar forms with real/imaginary/general scalars, dot, abs, 1- and inf-norms with homogeneity under units, conj/real, against exact Gaussian-rational arithmetic. BFS over push/push_front/insert/pop/swap/resize/assign/clear/sort/index writes on a real Vector<Rat> (length <= 5) runs to closure: all 1365 reachable states, every reduction re-checked in each.",
     "Trusted: Vec model; norms judged on integer-valued data so reference values are exact. random() only by length and range.",
     "DESIGN.md section 6 C15")
 add("C16", "model_checking",
@@ -95,7 +95,7 @@ add("C16", "model_checking",
 
 add("C17", "model_checking",
     "stateless depth-first exploration of all answer scripts of the user closure (deviation-bounded) + exhaustive family x guess x tolerance x iteration-limit lattices with an exact Newton reference",
-    "Termination half: for all six solve / solve_jacobian entry points, max_iter 0..3 and three base functions (root-free, non-differentiable, ordinary) every script that replaces the closure's answer at any call position by 0, NaN, +inf, 1e300 or the negated value is executed, up to 1 (quick) / 2 (thorough) deviations, each twice: the call returns, evaluations <= 3 (scalar) / n+2 per iteration, root-free => Err, identical observations. Convergence half: 11 real scalar, 5 complex scalar families and real/complex systems of dimension 1..6 with guesses across a conservative basin, 5 tolerances, 7 iteration limits: Ok => near the analytic root, enough iterations => Ok, Err carries the max_iter-th Newton iterate, max_iter 0 => Err(guess) bit for bit, parameters() unchanged.",
+    "Termination half: for all six solve / solve_jacobian entry points, max_iter 0..3 and three base functions (root-free, non-differentiable, ordinary) every script that replaces the closure's answer (for systems: either residual component) at any call position by 0, NaN, +inf, 1e300 or the negated value is executed, up to 1 (quick) / 2 (thorough) deviations, each twice: the call returns, evaluations <= 3 (scalar) / n+2 per iteration, root-free => Err, a system never reports success unless some residual was small, the user-Jacobian system entries agree call for call with a reference model of the stopping rule (first residual with every component modulus <= tol, a NaN component never counts), identical observations. Convergence half: 11 real scalar, 5 complex scalar families and real/complex systems of dimension 1..6 with guesses across a conservative basin, 5 tolerances, 7 iteration limits: Ok => near the analytic root, enough iterations => Ok, Err carries the max_iter-th Newton iterate, max_iter 0 => Err(guess) bit for bit, parameters() unchanged.",
     "Trusted: analytic roots/derivatives of the families, the harness' own Newton reference and dense LU. Closures outside the families and scripts with more deviations are not covered.",
     "DESIGN.md section 6 C17")
 add("C18", "exploration",
@@ -105,12 +105,12 @@ add("C18", "exploration",
     "DESIGN.md section 6 C18")
 add("C19", "model_checking",
     "exhaustive enumeration of spacing words / node counts + explicit-state BFS over write histories (object rebuilt by replay), map model",
-    "1-D meshes with every spacing word over {1/4,1/2,1,2} for 2..6 nodes, deviation-bounded words for 7..12 nodes and a non-dyadic family: every access path, interpolation at every node and at interior points of every cell, trapezium = cell sum and exact on linear data, output->read round trip; 2-D meshes over all node-count pairs 2..5: both cross-section orientations, var_as_matrix, apply, assign, trapezium/square_trapezium, exact on bilinear data. BFS over set/index-write/assign/apply histories on 2x3 and 3x2 meshes.",
+    "1-D meshes with every spacing word over {1/4,1/2,1,2} for 2..6 nodes, deviation-bounded words for 7..12 nodes and a non-dyadic family: every access path bit for bit (stored -0.0 included), interpolation at every node and at interior points of every cell, trapezium = cell sum and exact on linear data, output->read round trip; 2-D meshes over all node-count pairs 2..5: both cross-section orientations, var_as_matrix, apply, assign, trapezium/square_trapezium, exact on bilinear data. BFS over set/index-write/assign/apply histories on 2x3 and 3x2 meshes.",
     "Trusted: integer-valued / dyadic nodal data make f64 results exact on power-of-two grids. Interpolation is never probed within 1e-6 of a node except at it.",
     "DESIGN.md section 6 C19")
 
 add("C20", "model_checking",
     "exhaustive entry-point x size-pair table under panic capture with operand snapshots + explicit-state BFS over interleaved mutations of a value and its clone",
-    "92 entry points (every binary operator in owned and borrowed form, solver entry and checked accessor of Vector, Matrix, Banded, Tridiagonal, Sparse, Mesh1D/2D, Polynomial) x all size/shape pairs up to 6 (matrices to 3x3 quick / 4x4 thorough) and every index argument up to size+2 (about 12 400 calls quick): panic iff mismatched / out of range, operands equal their snapshots after a refusal and after every by-reference call, owned == borrowed results. BFS over mutations applied to a value or its clone and re-cloning, for five container types, with independent models.",
+    "92 entry points (every binary operator in owned and borrowed form, solver entry and checked accessor of Vector, Matrix, Banded, Tridiagonal, Sparse, Mesh1D/2D, Polynomial) x all size/shape pairs up to 6 (matrices to 3x3 quick / 4x4 thorough) and every index argument up to size+2 (about 12 400 calls quick): panic iff mismatched / out of range, operands equal their snapshots after a refusal and after every by-reference call, owned == borrowed results; the owned and borrowed forms of every operator of Matrix, Vector, Banded, Tridiagonal and Polynomial compared bit for bit on all 4-tuples of f64 / Complex<f64> letters with signed zeros and infinities. BFS over mutations applied to a value or its clone and re-cloning, for five container types, with independent models.",
     "Trusted: Debug/field snapshots as the observation of operand state. Raw (i,j) index operators of Matrix, Banded and Mesh2D are excluded, as the property states.",
     "DESIGN.md section 6 C20")
